@@ -244,9 +244,12 @@ def oracle_dqn_parallel_policy(ctx: Ctx, case):
         q_target = np.asarray(state.target_policy.q, np.float64)
         differs |= bool((q_online.argmax(1) != q_target.argmax(1)).any())
 
-        def chooser(s, q=q_online):
-            top = np.sort(q[s])[::-1]
-            return None if len(top) > 1 and top[0] - top[1] < 1e-6 else int(np.argmax(q[s]))
+        w_online = np.asarray(state.policy.w, np.float64)  # the double's Q-values may depend on its counter state
+
+        def chooser(s, n, q=q_online, w=w_online):
+            row = q[s] + w * n
+            top = np.sort(row)[::-1]
+            return None if len(top) > 1 and top[0] - top[1] < 1e-5 * (1 + abs(top[0])) else int(np.argmax(row))
 
         prev = state
         state = c05._iterate(algo, state, jr.key(case["key"] + k), cb)
